@@ -14,7 +14,9 @@ Definition check_line (s : line) (scale : Q) (obs_engines : list fl) (obs_pti : 
   | Some _, Some o => close_num scale o (Fin (pti_out s))
   | None, None => true
   | _, _ => false end &&
-  bool_list_eqb (map (status_after s) (l_engines s)) obs_status.
+  all2 (fun e o => Bool.eqb (status_after s e) o
+                   (* an output that is zero only up to rounding (loads summed in binary64 against the exact sum) *)
+                   || Qle_bool (Qabs (engine_out s e)) ((1 # 1000000000) * scale)) (l_engines s) obs_status.
 
 (* hybrid, one step: the PTI/PTO machine is a prepared component (serial system curve); the engines
    of its shaft line; the sources of the (single) bus share the load equally *)
